@@ -5,6 +5,7 @@
 
 #include <linux/futex.h>
 #include <pthread.h>
+#include <signal.h>
 #include <sys/mman.h>
 #include <sys/syscall.h>
 #include <unistd.h>
@@ -206,6 +207,13 @@ inline void ts_acq(void* p) { if (__tsan_acquire) __tsan_acquire(p); }
 inline void ts_rel(void* p) { if (__tsan_release) __tsan_release(p); }
 void* worker_main(void* p) {
   Worker* w = (Worker*)p;
+  {
+    // alternate signal stack per worker pthread: a crash of the code under test with a trashed stack pointer (e.g. a longjmp
+    // through a garbage jmp_buf) must still reach the driver's SIGSEGV handler and become a FAIL record, not a silent kill
+    stack_t ss; memset(&ss, 0, sizeof ss);
+    ss.ss_size = 1 << 16; ss.ss_sp = mmap(nullptr, ss.ss_size, PROT_READ | PROT_WRITE, MAP_PRIVATE | MAP_ANONYMOUS, -1, 0);
+    if (ss.ss_sp != MAP_FAILED) sigaltstack(&ss, nullptr);
+  }
   for (;;) {
     fwait(&w->start);
     Th* t = w->cur;
